@@ -28,7 +28,7 @@ RULE = ("documents of 0-8 pages; per page optional Media/Crop/TrimBox (integral 
         "absent / empty / any subset of the six text entries; each document built by the real PdfBuilder, reloaded cached and uncached and "
         "compared with the input, and its bytes judged by both validators; non-trivial = at least one page; distinct by (pages, info)")
 CASE_TIMEOUT = 20.0
-OPS = "qQBESfFnhmlMw"
+OPS = "qQBESfFnhmlMwLTUN"
 INFO_KEYS = ["Title", "Author", "Subject", "Keywords", "Creator", "Producer"]
 
 
@@ -83,12 +83,15 @@ def page_line(p):
 
 # content.rs: serialize_ops on the 13-letter alphabet of harness op_of (the operator round trip itself is C08's)
 OP_TEXT = {"q": b"q\n", "Q": b"Q\n", "B": b"BT\n", "E": b"ET\n", "S": b"S\n", "f": b"f\n", "F": b"f*\n", "n": b"n\n", "h": b"h\n",
-           "s": b"s\n", "m": b"10 20 m\n", "l": b"30.5 40 l\n", "M": b"0 -7.25 m\n", "w": b"2.5 w\n"}
+           "s": b"s\n", "m": b"10 20 m\n", "l": b"30.5 40 l\n", "M": b"0 -7.25 m\n", "w": b"2.5 w\n",
+           # text positioning: Leading 12, Td (5,-12), Td (5,12), T*; "D" = the folded pair Leading 12 + Td (5,-12), written `5 -12 TD`
+           "L": b"12 TL\n", "T": b"5 -12 Td\n", "U": b"5 12 Td\n", "N": b"T*\n", "D": b"5 -12 TD\n"}
 
 
 def model_page_line(p):
     # serialize_ops writes Close directly followed by Stroke as the single operator `s`
-    ct = b"".join(OP_TEXT[c] for c in p["ops"].replace("hS", "s"))
+    # … and Leading{l} directly followed by MoveTextPosition{(x, -l)} as `x -l TD` (NOT when y = +l: that pair stays two operators)
+    ct = b"".join(OP_TEXT[c] for c in p["ops"].replace("hS", "s").replace("LT", "D"))
     return ("mb=%s cb=%s tb=%s rot=%d ct=%s other=" % (rtext(p["mb"]), rtext(p["cb"]), rtext(p["tb"]), p["rot"], ct.hex())).encode() + canon(p["other"])
 
 
